@@ -7,7 +7,7 @@ import ast
 
 from rules import enum as R_enum
 from rules import fwd as R_fwd
-from sa.astutil import call_name, kwarg, u
+from sa.astutil import arg_or_kw, call_name, kwarg, u
 from sa.defuse import ReachingDefs
 from sa.model import AnalysisError, own_calls, own_nodes
 from sa.resolve import bind_args
@@ -81,6 +81,7 @@ def run(ctx: Ctx):
     col.ob("G16", "S4", f"{where}::loss=er*softmax(log_probs)", len(prod) == 1,
            "the loss is not er * softmax(log_probs)", rel, f.line)
     R_enum.g8_dispatch(pkg, res, col, f, "reduction", "S4", members=["mean", "sum", "none"], allow_else=0)
+    _mer_table(ctx, f, rel)
     # the reshaping keeps ref and hyp aligned: both flattened over (batch, samples) in the same order per layout
     plumbing(ctx, "S1")
     return dict(
@@ -96,6 +97,72 @@ def run(ctx: Ctx):
         not_decided=["mistakes counted along a minimum-cost alignment", "empty-reference convention", "prefix values"],
         assumptions=["docstring tables as oracle"],
     )
+
+
+def _mer_table(ctx: Ctx, f, rel: str):
+    """S4 as a table: minimum_error_rate_loss interpreted over exact values (sa/interp.py + sa/teval.py; nothing is run) with the
+    error rates of the (batch, sample) pairs and the softmax weights given as distinct rationals, for both layouts, 2- and
+    3-dimensional references, sub_avg on / off and every reduction:
+
+        loss[n, m] = (er[n, m] - (mean_m er[n, .] if sub_avg else 0)) * softmax(log_probs)[n, m]
+        'none' -> loss;  'sum' -> its total;  'mean' -> its total / (batch * samples)"""
+    import numpy as np
+    from fractions import Fraction as Fr
+    from sa.interp import Interp
+    from sa.inteval import NotEvaluable
+    from sa.teval import frac_array
+    col = ctx.col
+    where = f"{rel}::{f.qualname}"
+    N, M, H, R = 2, 3, 4, 5
+    ER = frac_array([[Fr(1, 2), Fr(3), Fr(5, 3)], [Fr(7), Fr(2, 5), Fr(11, 4)]])
+    W = frac_array([[Fr(1, 7), Fr(2, 7), Fr(4, 7)], [Fr(3, 11), Fr(3, 11), Fr(5, 11)]])
+    bad, n_rows = None, 0
+    try:
+        for bf in (True, False):
+            for rdim in (2, 3):
+                for sub in (True, False):
+                    for red in ("none", "sum", "mean"):
+                        def leaf(x, env):
+                            if isinstance(x, ast.Call):
+                                nm = call_name(x)
+                                if nm == "error_rate":
+                                    return ER.reshape(-1)
+                                if nm.endswith("softmax") and (len(x.args) + len(x.keywords)) >= 1:
+                                    axis = arg_or_kw(x, 1 if nm.startswith("torch") else 0, "dim")
+                                    if axis is None or u(axis) not in ("1", "-1"):
+                                        raise NotEvaluable("softmax over another axis")
+                                    return W
+                            return None
+                        it = Interp(leaf=leaf, tensors=True)
+                        env = {a.arg: None for a in f.node.args.args}
+                        hyp = frac_array(np.zeros((N, M, H) if bf else (H, N, M), dtype=int).tolist())
+                        if rdim == 3:
+                            ref = frac_array(np.zeros((N, M, R) if bf else (R, N, M), dtype=int).tolist())
+                        else:
+                            ref = frac_array(np.zeros((N, R) if bf else (R, N), dtype=int).tolist())
+                        env.update(log_probs=frac_array(np.zeros((N, M), dtype=int).tolist()), ref=ref, hyp=hyp, batch_first=bf, sub_avg=sub,
+                                   reduction=red, include_eos=True, norm=True, warn=True)
+                        kind, got = it.run(f.node, env)
+                        n_rows += 1
+                        er = ER - (ER.sum(1, keepdims=True) / M if sub else 0)
+                        loss = er * W
+                        want = loss if red == "none" else (loss.sum() if red == "sum" else loss.sum() / (N * M))
+                        same = kind == "return" and (np.array_equal(np.asarray(got, dtype=object), want) if hasattr(want, "shape")
+                                                      else (getattr(got, "size", 1) == 1 and got == want))
+                        if not same and bad is None:
+                            bad = (bf, rdim, sub, red, kind, got, want)
+    except NotEvaluable as e:
+        col.undecided(f"{where}: the loss is outside the interpreted fragment ({e})")
+        return
+    col.floor("mer_loss_table_rows", n_rows, 24)
+
+    def _show(v):
+        return str(v.tolist() if hasattr(v, "tolist") else v)[:90]
+    col.ob("G12", "S4", f"{where}::loss-table", bad is None,
+           (f"with batch_first={bad[0]}, a {bad[1]}-dimensional ref, sub_avg={bad[2]}, reduction={bad[3]!r} the function computes "
+            f"{_show(bad[5]) if bad[4] == 'return' else 'raise ' + str(bad[5])} from the reference error rates and weights; documented: "
+            f"(er - mean over samples if sub_avg) * softmax(log_probs), then none / total / total over batch * samples = {_show(bad[6])}") if bad else "",
+           rel, f.line, sample=dict(rows=n_rows))
 
 
 def _mutants():
